@@ -260,6 +260,21 @@ def euclid_lemmas(exprs, anchors=()):
 
     out = []
     live = [p for p in live if not z3.is_int_value(p[1])]  # constant divisor: linear already
+    # multipliers m with a product m*d in the query (d a symbolic divisor): shift lemma  x2 == x1 + m*d  ==>  q2 == q1 + m, r2 == r1
+    mults = {}
+    if live:
+        dset = {p[1].get_id(): p[1] for p in live}
+
+        def fm(x):
+            if z3.is_app(x) and x.decl().kind() == z3.Z3_OP_MUL and x.num_args() == 2:
+                a_, b_ = x.arg(0), x.arg(1)
+                for d_, m_ in ((a_, b_), (b_, a_)):
+                    if d_.get_id() in dset and not z3.is_int_value(m_) and m_.get_id() not in dset:
+                        mults.setdefault(d_.get_id(), {})[m_.get_id()] = m_
+
+        seen_ = set()
+        for e in exprs:
+            _walk(e, seen_, fm)
     prim = [primary(p) for p in live]
     dids = [p[1].get_id() for p in live]
     for i1, (x1, d1, q1, r1) in enumerate(live):
@@ -272,6 +287,10 @@ def euclid_lemmas(exprs, anchors=()):
                 continue
             t = x2 - q1 * d1
             out.append(z3.Implies(z3.And(t >= 0, t < d1), z3.And(q2 == q1, r2 == t)))
+            for m_ in list(mults.get(dids[i1], {}).values())[:6]:
+                if m_.get_id() in (q1.get_id(), q2.get_id()):
+                    continue
+                out.append(z3.Implies(x2 - x1 == m_ * d1, z3.And(q2 == q1 + m_, r2 == r1)))
             if prim[i1]:
                 # adjacent quotients (crossing into the next / previous unit), same uniqueness argument
                 out.append(z3.Implies(z3.And(t >= d1, t < 2 * d1), z3.And(q2 == q1 + 1, r2 == t - d1)))
@@ -287,6 +306,11 @@ def selfcheck_lemmas():
     s.add(d > 0, x1 == q1 * d + r1, 0 <= r1, r1 < d, x2 == q2 * d + r2, 0 <= r2, r2 < d, x2 - q1 * d >= 0, x2 - q1 * d < d)
     s.add(z3.Not(z3.And(q2 == q1, r2 == x2 - q1 * d)))
     ok = s.check() == z3.unsat
+    mm = z3.Int("mm")
+    s = z3.Solver()
+    s.set(timeout=30000)
+    s.add(d > 0, x1 == q1 * d + r1, 0 <= r1, r1 < d, x2 == q2 * d + r2, 0 <= r2, r2 < d, x2 - x1 == mm * d, z3.Not(z3.And(q2 == q1 + mm, r2 == r1)))
+    ok = ok and s.check() == z3.unsat
     for k in (1, -1):
         s = z3.Solver()
         s.set(timeout=30000)
@@ -624,7 +648,9 @@ def _pool(jobs, sample_texts=()):
 
 def run_queries(queries, jobs=None, timeout_ms=10000, thorough=False, seed=0):
     jobs = jobs or min(16, os.cpu_count() or 4)
-    tasks = [(i, q.stages, timeout_ms, thorough, seed) for i, q in enumerate(queries)]
+    # vacuity queries (canaries, pre.sat) only have to be *not refuted*: one quantifier-free stage, short budget
+    tasks = [(i, [st_ for st_ in q.stages if st_[0] == "qf+inst"][:1] or q.stages[-1:], 5000, False, seed) if getattr(q, "kind", "ob") != "ob"
+             else (i, q.stages, timeout_ms, thorough, seed) for i, q in enumerate(queries)]
     if not tasks:
         return queries
     if jobs == 1 or len(tasks) < 3:
